@@ -149,9 +149,12 @@ impl Proxy {
         let (s, r) = new_command_pair(&cmd);
         let ctx = CmdCtx::new(cmd, s, 1, false);
         let authenticated = AtomicBool::new(false);
-        match self.handler.handle_cmd_ctx(ctx, r, &authenticated).await {
-            Ok(task_reply) => Ok(task_reply.into_resp_vec()),
-            Err(e) => Err(format!("{:?}", e)),
+        use futures::FutureExt;
+        let fut = std::panic::AssertUnwindSafe(self.handler.handle_cmd_ctx(ctx, r, &authenticated)).catch_unwind();
+        match fut.await {
+            Ok(Ok(task_reply)) => Ok(task_reply.into_resp_vec()),
+            Ok(Err(e)) => Err(format!("{:?}", e)),
+            Err(_) => Err("PANIC".to_string()),
         }
     }
 }
